@@ -387,7 +387,8 @@ def one_stack(b, stack, nondim, solve_for, analytic=None):
 
 def stacks_for(tier):
     out = []
-    for st in [[k] for k in SINGLES] + PAIRS + TRIPLES + DEEP:
+    triples = TRIPLES if tier == "quick" else [[a_, b_, c_] for a_ in SINGLES for b_ in SINGLES for c_ in SINGLES]      # thorough: every triple of layer kinds
+    for st in [[k] for k in SINGLES] + PAIRS + triples + DEEP:
         out.append((st, True, TYPES))
     for st in [[k] for k in SINGLES] + (PAIRS if tier == "thorough" else PAIRS[::3]) + TRIPLES[:4] + DEEP[:1]:
         out.append((st, False, TYPES))
